@@ -17,12 +17,27 @@ Core Lean only.
 namespace LyModel.Diff
 open LyModel LyModel.Tree
 
+/-- Candidate repairs of known findings (`fixes/Fnn.diff`).  All `false` = the pinned tree; the check sets a switch when
+`known_findings.json` lists the finding as `fixed`, so that the model follows the repaired code. -/
+structure Fixes where
+  f120 : Bool := false     -- apply: a user-ordered leaf-list move also applies the default-flag change
+  f126 : Bool := false     -- apply: descendants without an operation below a moved instance are skipped
+  f128 : Bool := false     -- diff: `*diff` is re-computed after an existing node was moved behind its fellow instances
+  deriving Repr, Inhabited
+
 inductive Op where
   | create | delete | replace | none
-  deriving Repr, BEq, DecidableEq, Inhabited
+  deriving Repr, DecidableEq, Inhabited
 
 def Op.str : Op → String
   | .create => "create" | .delete => "delete" | .replace => "replace" | .none => "none"
+
+/-- `lyd_diff_op2str` as bytes (literal lists: they reduce in the kernel, `String.toUTF8` does not) -/
+def Op.bytes : Op → Bytes
+  | .create => [99, 114, 101, 97, 116, 101]
+  | .delete => [100, 101, 108, 101, 116, 101]
+  | .replace => [114, 101, 112, 108, 97, 99, 101]
+  | .none => [110, 111, 110, 101]
 
 /-- `lyd_diff_str2op` reads the first character only -/
 def Op.ofBytes (b : Bytes) : Option Op :=
@@ -85,20 +100,21 @@ def findIdxFrom (p : DNode → Nat → Bool) : List DNode → Nat → Option Nat
   | [], _ => Option.none
   | x :: xs, i => if p x i then some i else findIdxFrom p xs (i + 1)
 
+/-- is sibling `x` (at index `i`) what `lyd_find_sibling_first` / the duplicate-instance cache return for `target`? -/
+def matchPred (S : Schema) (target : DNode) (used : List Nat) (x : DNode) (i : Nat) : Bool :=
+  if S.isKind target.sid .list || S.isKind target.sid .leaflist then
+    x.sid == target.sid && instMatch S target x && !(S.isDupInst target.sid && used.contains i)
+  else x.sid == target.sid
+
 /-- `lyd_diff_find_match` while *diffing* (the sibling list does not change): `used` is the duplicate-instance cache —
 the indices already handed out; a dup-inst target gets the next unused equal instance, any other target the first match.
 Returns the match (after the default filter) and the new cache. -/
 def findMatch (S : Schema) (sibs : List DNode) (target : DNode) (defaults : Bool) (used : List Nat) :
     Option Nat × List Nat :=
-  let isLL := S.isKind target.sid .list || S.isKind target.sid .leaflist
-  let dup := S.isDupInst target.sid
-  let r := findIdxFrom (fun x i =>
-    if isLL then x.sid == target.sid && instMatch S target x && !(dup && used.contains i)
-    else x.sid == target.sid) sibs 0
-  match r with
+  match findIdxFrom (matchPred S target used) sibs 0 with
   | Option.none => (Option.none, used)
   | some i =>
-    let used' := if dup then i :: used else used
+    let used' := if S.isDupInst target.sid then i :: used else used
     if (sibs[i]?.map (·.flags.dflt)).getD false && !defaults then (Option.none, used') else (some i, used')
 
 /-! ## duplication into the diff -/
@@ -175,7 +191,7 @@ def idxOfTag (l : List (Bool × Nat)) (t : Bool × Nat) : Nat :=
 def tagNode (first second : List DNode) (t : Bool × Nat) : Option DNode :=
   if t.1 then second[t.2]? else first[t.2]?
 
-def boolBytes (b : Bool) : Bytes := if b then bs "true" else bs "false"
+def boolBytes (b : Bool) : Bytes := if b then [116, 114, 117, 101] else [102, 97, 108, 115, 101]
 
 /-- `lyd_diff_userord_attrs`.  `fi`/`si`: index of the node of the first / second tree (`none` = NULL).
 Returns `none` for `LY_ENOT` (no change) — the position counter has advanced all the same. -/
@@ -260,25 +276,26 @@ def nestedMeta (S : Schema) (prev : Option DNode) (posInGroup : Nat) (n : DNode)
     if S.isKind n.sid .list then addMeta n "key" ((p.map (keyPredicate S)).getD [])
     else addMeta n "value" ((p.map (·.val)).getD [])
 
+/-- one sibling list of a created copy: every node gets its nested metadata, `recur` does the children -/
+def nestedGo (S : Schema) (recur : List DNode → List DNode) (prev : Option DNode) (cnt : Nat) : List DNode → List DNode
+  | [] => []
+  | k :: rest =>
+    let cnt' := match prev with
+      | some p => if p.sid == k.sid then cnt + 1 else 0
+      | Option.none => 0
+    let k1 := nestedMeta S prev cnt' k
+    let k2 := match k1 with
+      | .inner s f m kk => DNode.inner s f m (recur kk)
+      | t => t
+    k2 :: nestedGo S recur (some k) cnt' rest
+
 /-- all descendants of a created copy get their nested metadata (`LYD_TREE_DFS` over the copy, the root excepted) -/
 def nestedAll (S : Schema) : (fuel : Nat) → List DNode → List DNode
   | 0, ks => ks
-  | fuel + 1, ks =>
-    let rec go (prev : Option DNode) (cnt : Nat) : List DNode → List DNode
-      | [] => []
-      | k :: rest =>
-        let cnt' := match prev with
-          | some p => if p.sid == k.sid then cnt + 1 else 0
-          | Option.none => 0
-        let k1 := nestedMeta S prev cnt' k
-        let k2 := match k1 with
-          | .inner s f m kk => DNode.inner s f m (nestedAll S fuel kk)
-          | t => t
-        k2 :: go (some k) cnt' rest
-    go Option.none 0 ks
+  | fuel + 1, ks => nestedGo S (nestedAll S fuel) Option.none 0 ks
 
 def withAttrs (S : Schema) (n : DNode) (a : Attrs) : DNode :=
-  let n := addMeta n "operation" (bs a.op.str)
+  let n := addMeta n "operation" a.op.bytes
   -- all nested user-ordered (leaf-)lists need special metadata for a create
   let n := if a.op == .create then n.setKids (nestedAll S (n.height + 1) n.kids) else n
   let n := addMetaOpt n "orig-default" a.origDefault
@@ -298,29 +315,39 @@ def moveToGroupEnd (l : List DNode) (i : Nat) : List DNode :=
     let grp := after.takeWhile (·.sid == e.sid)
     l.take i ++ grp ++ [e] ++ after.drop grp.length
 
+/-- an operation on a descendant already created this diff node (user-ordered instance moved after its content changed):
+the operation is replaced, children without an explicit operation keep the old one (`none`) -/
+def reuseNode (S : Schema) (e : DNode) (a : Attrs) : DNode :=
+  let e1 := e.setMetas (eraseMeta "operation" e.metas)
+  let ks := e1.kids.map fun k =>
+    if S.isKey k.sid || (getMeta k "operation").isSome then k else addMeta k "operation" Op.none.bytes
+  withAttrs S (e1.setKids ks) a
+
+/-- the existing diff node `out[i]` takes the operation; a user-ordered one moves behind its fellow instances -/
+def addExisting (S : Schema) (out : List DNode) (node : DNode) (a : Attrs) (i : Nat) : List DNode × Option (Nat × Nat) :=
+  match out[i]? with
+  | Option.none => (out, some (i, i))
+  | some e =>
+    let e2 := reuseNode S e a
+    let out' := out.set i e2
+    if S.isUserOrd node.sid then
+      (moveToGroupEnd out' i, some (i, i + ((out'.drop (i + 1)).takeWhile (·.sid == e2.sid)).length))
+    else (out', some (i, i))
+
+/-- the copy of `node` that goes into the diff: the whole subtree, except for the move of a configuration user-ordered
+list instance ("move applies only to the user-ordered list, no descendants") -/
+def newNode (S : Schema) (node : DNode) (a : Attrs) : DNode :=
+  let recursive := !(a.op == .replace && S.isUserOrd node.sid && S.config node.sid)
+  withAttrs S (if recursive then dupRec node else dupShallow S node) a
+
 /-- The node for `(node, attrs)` at this diff level.  Second component: `none` — a new node was inserted
 (`lyd_diff_insert_sibling` at the top level re-computes the first sibling); `some (i, j)` — the existing node `i` was
 re-used and now sits at index `j`. -/
 def addAt (S : Schema) (out : List DNode) (node : DNode) (a : Attrs) : List DNode × Option (Nat × Nat) :=
   let existing := if S.isDupInst node.sid then Option.none else findIdxFrom (fun x _ => sameInst S x node) out 0
   match existing with
-  | some i =>
-    -- an operation on a descendant already created this node (user-ordered instance moved after its content changed)
-    match out[i]? with
-    | Option.none => (out, some (i, i))
-    | some e =>
-      let e1 := e.setMetas (eraseMeta "operation" e.metas)
-      let ks := e1.kids.map fun k =>
-        if S.isKey k.sid || (getMeta k "operation").isSome then k else addMeta k "operation" (bs "none")
-      let e2 := withAttrs S (e1.setKids ks) a
-      let out' := out.set i e2
-      if S.isUserOrd node.sid then
-        (moveToGroupEnd out' i, some (i, i + ((out'.drop (i + 1)).takeWhile (·.sid == e2.sid)).length))
-      else (out', some (i, i))
-  | Option.none =>
-    let recursive := !(a.op == .replace && S.isUserOrd node.sid && S.config node.sid)
-    let d := if recursive then dupRec node else dupShallow S node
-    (insertBySchema (withAttrs S d a) out, Option.none)
+  | some i => addExisting S out node a i
+  | Option.none => (insertBySchema (newNode S node a) out, Option.none)
 
 /-! ## one sibling level -/
 
@@ -339,7 +366,7 @@ def St.emit (st : St) (out' : List DNode) (side : Bool) (fd : Nat) : St :=
 
 /-- `lyd_diff_add` at this level.  `*diff` is re-computed (first sibling) whenever a node is inserted at the top level, but
 NOT when an existing node is moved behind its fellow instances: if `*diff` pointed to that node it keeps pointing to it, and
-`lyd_diff_siblings` hands out a pointer into the middle of the sibling list (finding F58). -/
+`lyd_diff_siblings` hands out a pointer into the middle of the sibling list (finding F128). -/
 def St.add (S : Schema) (st : St) (node : DNode) (a : Attrs) (side : Bool) : St :=
   let (out', ev) := addAt S st.out node a
   let ptr' := match ev with
@@ -359,76 +386,90 @@ def wrapParent (S : Schema) (top : Bool) (st : St) (a b : DNode) (sub : St) : St
   if sub.out.isEmpty then st else
   let src := if sub.side then b else a
   let hdr := dupShallow S src
-  let metas : List Meta := if noneOnParent top st.emitted sub.fd then [("operation", bs "none")] else []
+  let metas : List Meta := if noneOnParent top st.emitted sub.fd then [("operation", Op.none.bytes)] else []
   let p := DNode.inner hdr.sid { hdr.flags with dflt := hdr.flags.dflt && sub.out.all (·.flags.dflt) } metas (hdr.kids ++ sub.out)
   { st.emit (insertBySchema p st.out) sub.side (sub.fd + 1) with ptr := 0 }
+
+/-- first pass, user-ordered node `a = first[i]`: only a delete is handled now -/
+def phase1UO (S : Schema) (defaults : Bool) (first second : List DNode) (st : St) (a : DNode) (i : Nat)
+    (m : Option Nat) : St :=
+  let item := uoGet st.uo a.sid first true
+  match m with
+  | Option.none =>
+    let r := userordAttrs S defaults first second item (some i) Option.none
+    let st := { st with uo := uoSet st.uo r.2 }
+    match r.1 with
+    | some atr => st.add S a atr false
+    | Option.none => st
+  | some _ => { st with uo := uoSet st.uo item }
+
+/-- first pass, any other node: `lyd_diff_attrs` — delete (of `a`) or replace / none (the diff gets the node of the second tree) -/
+def phase1Plain (S : Schema) (defaults : Bool) (second : List DNode) (st : St) (a : DNode) (m : Option Nat) : St :=
+  match plainAttrs S defaults (some a) (m.bind (second[·]?)) with
+  | some atr =>
+    if atr.op == .delete then st.add S a atr false
+    else match m.bind (second[·]?) with
+      | some b => st.add S b atr true
+      | Option.none => st
+  | Option.none => st
+
+/-- first pass of `lyd_diff_siblings_r`, one node `a = first[i]`: delete / replace / none, then the recursion into the
+matched pair (`recur` = `lyd_diff_siblings_r` on the children) -/
+def phase1Step (S : Schema) (defaults top : Bool) (recur : List DNode → List DNode → St) (first second : List DNode)
+    (st : St) (p : DNode × Nat) : St :=
+  let a := p.1
+  let i := p.2
+  if a.flags.dflt && !defaults then st else
+  let fm := findMatch S second a defaults st.used
+  let st := { st with used := fm.2 }
+  let st := if S.isUserOrd a.sid then phase1UO S defaults first second st a i fm.1
+    else phase1Plain S defaults second st a fm.1
+  match fm.1.bind (second[·]?) with
+  | some b => wrapParent S top st a b (recur (noKeys S a.kids) (noKeys S b.kids))
+  | Option.none => st
+
+/-- second pass, one node `b = second[j]`: create, user-ordered create / move -/
+def phase2Step (S : Schema) (defaults : Bool) (first second : List DNode) (st : St) (p : DNode × Nat) : St :=
+  let b := p.1
+  let j := p.2
+  if b.flags.dflt && !defaults then st else
+  let (m, used') := findMatch S first b defaults st.used
+  let st := { st with used := used' }
+  if S.isUserOrd b.sid then
+    let item := uoGet st.uo b.sid first m.isSome
+    let (atrO, item') := userordAttrs S defaults first second item m (some j)
+    let st := { st with uo := uoSet st.uo item' }
+    match atrO with
+    | some atr => st.add S b atr true
+    | Option.none => st
+  else
+    match m with
+    | Option.none => st.add S b { op := .create } true
+    | some _ => st
+
+/-- between the passes: reset all cached positions; the second pass has its own duplicate-instance cache -/
+def resetPhase (st : St) : St :=
+  { st with uo := st.uo.map (fun it => { it with pos := 0 }), used := [] }
 
 /-- `lyd_diff_siblings_r(first, second, options, 0, diff)` for one sibling level; `top`: the level of the diff roots -/
 def diffSiblings (S : Schema) (defaults : Bool) : (fuel : Nat) → (top : Bool) → (first second : List DNode) → St
   | 0, _, _, _ => {}
   | fuel + 1, top, first, second =>
-    -- first pass: delete, replace, none
-    let st1 := first.zipIdx.foldl (fun (st : St) (p : DNode × Nat) =>
-      let a := p.1
-      let i := p.2
-      if a.flags.dflt && !defaults then st else
-      let (m, used') := findMatch S second a defaults st.used
-      let st := { st with used := used' }
-      let st :=
-        if S.isUserOrd a.sid then
-          let item := uoGet st.uo a.sid first true
-          match m with
-          | Option.none =>
-            let (atrO, item') := userordAttrs S defaults first second item (some i) Option.none
-            let st := { st with uo := uoSet st.uo item' }
-            match atrO with
-            | some atr => st.add S a atr false
-            | Option.none => st
-          | some _ => { st with uo := uoSet st.uo item }
-        else
-          match plainAttrs S defaults (some a) (m.bind (second[·]?)) with
-          | some atr =>
-            if atr.op == .delete then st.add S a atr false
-            else match m.bind (second[·]?) with
-              | some b => st.add S b atr true
-              | Option.none => st
-          | Option.none => st
-      match m.bind (second[·]?) with
-      | some b => wrapParent S top st a b (diffSiblings S defaults fuel false (noKeys S a.kids) (noKeys S b.kids))
-      | Option.none => st) ({} : St)
-    -- reset all cached positions; the second pass has its own duplicate-instance cache
-    let st1 := { st1 with uo := st1.uo.map (fun it => { it with pos := 0 }), used := [] }
-    -- second pass: create, user-ordered move
-    second.zipIdx.foldl (fun (st : St) (p : DNode × Nat) =>
-      let b := p.1
-      let j := p.2
-      if b.flags.dflt && !defaults then st else
-      let (m, used') := findMatch S first b defaults st.used
-      let st := { st with used := used' }
-      if S.isUserOrd b.sid then
-        let item := uoGet st.uo b.sid first m.isSome
-        let (atrO, item') := userordAttrs S defaults first second item m (some j)
-        let st := { st with uo := uoSet st.uo item' }
-        match atrO with
-        | some atr => st.add S b atr true
-        | Option.none => st
-      else
-        match m with
-        | Option.none => st.add S b { op := .create } true
-        | some _ => st) st1
+    let st1 := first.zipIdx.foldl (phase1Step S defaults top (diffSiblings S defaults fuel false) first second) {}
+    second.zipIdx.foldl (phase2Step S defaults first second) (resetPhase st1)
 
 /-- `lyd_diff_siblings(first, second, options, &diff)`: all diff siblings, and the index of the one `*diff` points to -/
-def diffFull (S : Schema) (defaults : Bool) (first second : List DNode) : List DNode × Nat :=
+def diffFull (S : Schema) (defaults : Bool) (first second : List DNode) (fx : Fixes := {}) : List DNode × Nat :=
   let st := diffSiblings S defaults (Nat.max (heightL first) (heightL second) + 1) true first second
-  (st.out, st.ptr)
+  (st.out, if fx.f128 then 0 else st.ptr)
 
 /-- the diff tree (what `lyd_print_all` / a walk from the first sibling sees) -/
 def diff (S : Schema) (defaults : Bool) (first second : List DNode) : List DNode :=
   (diffFull S defaults first second).1
 
 /-- the diff as `lyd_diff_apply_all(&data, diff)` walks it: from `*diff` on -/
-def diffFromPtr (S : Schema) (defaults : Bool) (first second : List DNode) : List DNode :=
-  let r := diffFull S defaults first second
+def diffFromPtr (S : Schema) (defaults : Bool) (first second : List DNode) (fx : Fixes := {}) : List DNode :=
+  let r := diffFull S defaults first second fx
   r.1.drop r.2
 
 end LyModel.Diff
